@@ -87,6 +87,64 @@ theorem ltan_raan_ranges (x sun : ℝ) :
     (0 ≤ raan2ltan x sun ∧ raan2ltan x sun < 86400) ∧ (0 ≤ ltan2raan x sun ∧ ltan2raan x sun < 2 * pi) :=
   ⟨fmod_range _ _ (by norm_num), fmod_range _ _ (by positivity)⟩
 
+/-! ### `orb2ltan`: the orbit-level entry point, and what the `type` argument selects -/
+
+/-- the two conversions with DIFFERENT sun angles: the right ascension comes back shifted by the difference of the two -/
+theorem ltan_raan_mismatch (raan s1 s2 : ℝ) :
+    ltan2raan (raan2ltan raan s1) s2 = fmod (raan + (s2 - s1)) (2 * pi) := by
+  have hpi := Real.pi_ne_zero
+  unfold raan2ltan ltan2raan
+  simp only
+  have h1 : fmod (43200 + (raan - s1) * 43200 / pi) 86400
+      = 43200 + (raan - s1) * 43200 / pi - 86400 * (⌊(43200 + (raan - s1) * 43200 / pi) / 86400⌋ : ℤ) := rfl
+  rw [h1]
+  have h2 : (43200 + (raan - s1) * 43200 / pi - 86400 * (⌊(43200 + (raan - s1) * 43200 / pi) / 86400⌋ : ℤ) - 43200) * pi / 43200 + s2
+      = (raan + (s2 - s1)) - (2 * pi) * (⌊(43200 + (raan - s1) * 43200 / pi) / 86400⌋ : ℤ) := by
+    field_simp; ring
+  rw [h2, fmod_sub_int_mul _ _ _ (by positivity)]
+
+/-- the `type` argument of the LTAN helpers -/
+inductive LtanType | mean | true
+  deriving DecidableEq
+
+/-- the sun angle a `type` selects (`m` = `_mean_sun_raan(date)`, `t` = `_true_sun_raan(date)`): the dispatch of
+`raan2ltan` / `ltan2raan`, pinned to the source by `ltan_type_dispatch_source` -/
+def sunOf (m t : ℝ) : LtanType → ℝ
+  | .mean => m
+  | .true => t
+
+/-- `orb2ltan(orb, type)` as its source reads (`orb2ltan_source`): `raan2ltan` of the orbit's own date, of its right
+ascension in EME2000, with the SAME `type` -/
+noncomputable def orb2ltanModel (raanEME m t : ℝ) (ty : LtanType) : ℝ := raan2ltan raanEME (sunOf m t ty)
+
+/-- **what `orb2ltan` hands on**, regenerated from the AST of ltan.py on every run: the orbit's date, the right ascension of
+its EME2000 keplerian copy, and the caller's `type` -/
+theorem orb2ltan_source :
+    orb2ltanBody = ["def orb2ltan(orb, type='mean')",
+      "return raan2ltan(orb.date, orb.copy(frame='EME2000', form='keplerian').raan, type)"] := by
+  decide
+
+/-- **how both directions choose the sun angle**: the same two tests, the same two providers, an error otherwise -/
+theorem ltan_type_dispatch_source :
+    ltanTypeDispatch = ["raan2ltan: type == 'mean' -> sun_raan = _mean_sun_raan(date)",
+      "raan2ltan: type == 'true' -> sun_raan = _true_sun_raan(date)",
+      "raan2ltan: else -> raise ValueError(f'Unknwon Local Time type : {type}')",
+      "ltan2raan: type == 'mean' -> sun_raan = _mean_sun_raan(date)",
+      "ltan2raan: type == 'true' -> sun_raan = _true_sun_raan(date)",
+      "ltan2raan: else -> raise ValueError(f'Unknwon Local Time type : {type}')"] := by
+  decide
+
+/-- **orbit → LTAN → RAAN gives back the orbit's node** (modulo 2π), for either type, whatever the two sun angles are -/
+theorem orb2ltan_inverse (raanEME m t : ℝ) (ty : LtanType) :
+    ltan2raan (orb2ltanModel raanEME m t ty) (sunOf m t ty) = fmod raanEME (2 * pi) :=
+  raan_ltan_inverse _ _
+
+/-- what a `type` lost on the way costs: the node comes back shifted by (true − mean) sun angle, the equation of time
+(up to 16 min = 4°) -/
+theorem orb2ltan_type_dropped_defect (raanEME m t : ℝ) :
+    ltan2raan (orb2ltanModel raanEME m t .mean) (sunOf m t .true) = fmod (raanEME + (t - m)) (2 * pi) :=
+  ltan_raan_mismatch _ _ _
+
 /-! ## Walker constellations -/
 
 /-- **A Walker t/p/f constellation whose number of planes divides the total contains t satellites** -/
